@@ -46,14 +46,23 @@ SOFTMAX = Parameterization(activation="softmax", initialization="normal")
 def plan(tier, seed):
     n = 48 if tier == "quick" else 9000
     kinds = ["rg", "rg", "rg", "rg", "image", "tabular", "hmm", "ff", "cp", "tucker"]
-    return [{"kind": kinds[k % len(kinds)], "k": k, "seed": seed} for k in range(n)]
+    cases = [{"kind": kinds[k % len(kinds)], "k": k, "seed": seed} for k in range(n)]
+    # per-variable Binomial arguments (same units and parameter shapes, different total_count) in the
+    # templates that take per-variable keyword lists
+    cases += [{"kind": ("hmm-hb", "ff-hb")[k % 2], "k": 100000 + k, "seed": seed} for k in range(n // 4)]
+    return cases
 
 
 def build(case):
     rng = case_rng(ID, case["seed"], (case["kind"], case["k"]))
     kind = case["kind"]
+    force_hb = kind.endswith("-hb")
+    kind = kind[:-3] if force_hb else kind
     feats = {"tmpl:" + kind}
     inp = rng.choice(["categorical", "binomial", "gaussian"])
+    if force_hb:
+        inp = "binomial"
+        feats.add("per-variable-binomial")
     ikw = {"categorical": {"num_categories": rng.randint(2, 3)}, "binomial": {"total_count": rng.randint(1, 2)}, "gaussian": {}}[inp]
     ni, ns, nc = rng.randint(1, 3), rng.randint(1, 3), rng.randint(1, 2)
     sp = rng.choice(["cp", "cp-t", "tucker"])
@@ -128,13 +137,13 @@ def build(case):
         order = list(range(n))
         rng.shuffle(order)
         # per-variable arguments (a different domain size for each variable) half of the time
-        hetero = rng.random() < 0.5 and inp != "gaussian"
+        hetero = (rng.random() < 0.5 and inp != "gaussian") or force_hb
         kw = [({"num_categories": 2 + (v % 3)} if inp == "categorical" else {"total_count": 1 + (v % 3)}) for v in range(n)] if hetero else ikw
         sc = pgms.hmm(order, input_layer=inp, num_latent_states=rng.randint(1, 3), input_layer_kwargs=kw)
         desc = dict(order=order, inp=inp, hetero=hetero)
     elif kind == "ff":
         n = rng.randint(1, 5)
-        hetero = rng.random() < 0.5 and inp != "gaussian"
+        hetero = (rng.random() < 0.5 and inp != "gaussian") or force_hb
         kw = [({"num_categories": 2 + (v % 3)} if inp == "categorical" else {"total_count": 1 + (v % 3)}) for v in range(n)] if hetero else ikw
         sc = pgms.fully_factorized(n, input_layer=inp, input_layer_kwargs=kw)
         desc = dict(n=n, inp=inp, hetero=hetero)
